@@ -477,8 +477,20 @@ def run(ctx: Ctx):
                 ctx.check(v.get("ok", False), "R01.h", key, f"{r} (vetted)", f"numpy printer: {name} falls through to {r}: {v.get('why', 'not value-preserving')}", "")
     printers.check_no_unvetted_override(ctx, "R01.h", "numpy", skip=("sign", "DiracDelta"))
     fl = M.method("numpy", "_print_Float")
-    okfl = fl is not None and any(isinstance(n, ast.Return) and norm(n.value) in ("self._print(str(float(flt)))", "self._print(repr(float(flt)))", "repr(float(flt))", "str(float(flt))") for n in ast.walk(fl.node))
-    ctx.check(okfl, "R01.h", "numpy-printer::Float::repr", "Float -> shortest round-trip repr", "numpy printer: a Float is not printed as str(float(value)) (digits would be lost or added)", fl.where() if fl else "")
+    if fl is None:
+        ctx.fail("R01.h", "numpy-printer::Float::repr", "numpy printer has no _print_Float of its own (sympy prints 15 significant digits)", "")
+    else:
+        ft = util.text_of(ctx, fl)
+        if ft is None:
+            from sa import av as _avfl
+            fv_ = util.value_of(ctx, fl)
+            inner_ = fv_[3][0] if fv_[0] == "mcall" and fv_[2] == "_print" and fv_[3] else fv_
+            ft = _avfl.flatten(inner_).replace(_avfl.HO, "{").replace(_avfl.HC, "}") if _avfl._is_str(inner_) and not _avfl.has_unk(inner_) else None
+        p0 = fl.params[1] if len(fl.params) > 1 else "flt"
+        if ft is None:
+            ctx.undecided("R01.h", "numpy-printer::Float::repr", "what _print_Float returns is not understood", fl.where())
+        else:
+            ctx.check(ft in ("{float(" + p0 + ")}", "{repr(float(" + p0 + "))}"), "R01.h", "numpy-printer::Float::repr", "Float -> shortest round-trip repr", f"numpy printer: a Float is printed as `{ft}`, not as str(float(value)) (digits would be lost or added)", fl.where())
     for cname, fn in (("And", "numpy.logical_and"), ("Or", "numpy.logical_or")):
         f = M.method("numpy", f"_print_{cname}")
         frs = " ".join(pm.fragments(f)) if f else ""
@@ -490,11 +502,32 @@ def run(ctx: Ctx):
 
         check_nested(ctx, "R01.h", nf)
     eq = M.method("numpy", "_print_Equality")
-    ctx.check(eq is not None and "({self._print(lhs)} == {self._print(rhs)})" in pm.fragments(eq), "R01.h", "numpy-printer::Equality::text", "(lhs == rhs)", "numpy printer: Equality is not printed as (lhs == rhs)", eq.where() if eq else "")
+    if eq is None:
+        ctx.fail("R01.h", "numpy-printer::Equality::text", "numpy printer has no _print_Equality", "")
+    else:
+        et = util.text_of(ctx, eq)
+        ep_ = eq.params[-1]
+        wants_eq = ["({self._print(%s.args[0])} == {self._print(%s.args[1])})" % (ep_, ep_), "({self._print(%s.lhs)} == {self._print(%s.rhs)})" % (ep_, ep_)]
+        if et is None:
+            ctx.undecided("R01.h", "numpy-printer::Equality::text", "what _print_Equality returns is not understood", eq.where())
+        else:
+            ctx.check(et in wants_eq, "R01.h", "numpy-printer::Equality::text", "(lhs == rhs)", f"numpy printer: Equality is printed as `{et}`, not as (printed lhs == printed rhs)", eq.where())
     hp = M.method("numpy", "_hprint_Pow")
-    a = hp.node.args if hp else None
-    oksq = hp is not None and any(isinstance(dv, ast.Constant) and dv.value == "numpy.sqrt" for dv in a.defaults) and any(isinstance(n, ast.Return) and norm(n.value) == "super()._hprint_Pow(expr, rational, sqrt)" for n in ast.walk(hp.node))
-    ctx.check(oksq, "R01.h", "numpy-printer::Pow::sqrt", "sqrt -> numpy.sqrt", "numpy printer: _hprint_Pow no longer passes sqrt='numpy.sqrt' on to sympy", hp.where() if hp else "")
+    if hp is None:
+        ctx.fail("R01.h", "numpy-printer::Pow::sqrt", "numpy printer has no _hprint_Pow: sympy prints math.sqrt", "")
+    else:
+        from sa import av as _avp
+
+        a = hp.node.args
+        dflt_sqrt = any(isinstance(dv, ast.Constant) and dv.value == "numpy.sqrt" for dv in a.defaults)
+        hv = util.value_of(ctx, hp)
+        sq = None
+        if hv[0] == "mcall" and hv[2] == "_hprint_Pow":
+            sq = dict(hv[4]).get("sqrt", hv[3][2] if len(hv[3]) > 2 else None)
+        if sq is None and _avp.has_unk(hv):
+            ctx.undecided("R01.h", "numpy-printer::Pow::sqrt", "what _hprint_Pow returns is not understood", hp.where())
+        else:
+            ctx.check(dflt_sqrt and sq == ("sym", "sqrt"), "R01.h", "numpy-printer::Pow::sqrt", "sqrt -> numpy.sqrt", "numpy printer: _hprint_Pow no longer passes sqrt='numpy.sqrt' on to sympy", hp.where())
     pwm = M.method("numpy", "_print_Piecewise")
     check_where_nesting(ctx, "R01.h", pwm)
     sp_ = sm.func("codegen/base.py", "_print_Piecewise")
